@@ -3,8 +3,11 @@ package main
 import (
 	"bytes"
 	"context"
+	"runtime"
 	"sort"
+	"strconv"
 	"sync"
+	"sync/atomic"
 	"time"
 
 	"github.com/kubewharf/kubebrain/pkg/storage"
@@ -49,6 +52,44 @@ type ctl struct {
 	gated   bool
 	arrived chan arrival
 	clients map[string]chan string // cid -> release directive
+
+	// stepped repair (cfg retrysteps=1, gated mode): the storage calls of the async retry loop are parked
+	// like a client's, under the pseudo client id retryCid. The loop's goroutine is identified by its id,
+	// recorded every time it passes the hook gate "retry.step" (no hook inside overwrite() is needed).
+	retrySteps bool
+	retryGid   int64 // atomic
+}
+
+// retryCid is the pseudo client id of the retry loop's goroutine in stepped-repair mode.
+const retryCid = "R"
+
+// curGid parses the current goroutine's id from the first line of its stack ("goroutine 123 [running]:").
+func curGid() int64 {
+	var buf [64]byte
+	n := runtime.Stack(buf[:], false)
+	b := buf[:n]
+	const pfx = "goroutine "
+	if len(b) < len(pfx) {
+		return -1
+	}
+	b = b[len(pfx):]
+	i := bytes.IndexByte(b, ' ')
+	if i < 0 {
+		return -1
+	}
+	id, err := strconv.ParseInt(string(b[:i]), 10, 64)
+	if err != nil {
+		return -1
+	}
+	return id
+}
+
+// noteRetryGoroutine is called from the hook gate "retry.step", i.e. on the retry loop's goroutine.
+func (c *ctl) noteRetryGoroutine() { atomic.StoreInt64(&c.retryGid, curGid()) }
+
+// onRetryGoroutine: is the caller the retry loop's goroutine (stepped-repair mode only)?
+func (c *ctl) onRetryGoroutine() bool {
+	return c.retrySteps && c.gated && curGid() == atomic.LoadInt64(&c.retryGid)
 }
 
 type arrival struct {
@@ -89,6 +130,9 @@ func (c *ctl) popFault() string {
 // gate parks a stepped client at a storage call; returns the directive given by `step`.
 func (c *ctl) gate(ctx context.Context, name string) string {
 	cid := cidOf(ctx)
+	if cid == "" && c.onRetryGoroutine() {
+		cid = retryCid
+	}
 	if cid == "" || !c.gated {
 		return ""
 	}
@@ -311,6 +355,7 @@ func (b *batchWrap) DelCurrent(it storage.Iter) {
 
 func (b *batchWrap) Commit(ctx context.Context) error {
 	fault := b.w.c.gate(ctx, "commit")
+	stepped := fault != "" // released by `step <cid> [f=]`: the directive is this commit's own
 	if fault == "" {
 		fault = b.w.c.popFault()
 	}
@@ -339,7 +384,7 @@ func (b *batchWrap) Commit(ctx context.Context) error {
 		// own verdict is returned and the directive stays pending for the next commit
 		if err := b.dry(ctx); err != nil {
 			b.w.c.mu.Lock()
-			if cidOf(ctx) == "" || !b.w.c.gated {
+			if !stepped {
 				b.w.c.faults = append([]string{fault}, b.w.c.faults...)
 			}
 			b.w.c.mu.Unlock()
